@@ -76,6 +76,7 @@ API = {
     'PyArg_ParseTupleAndKeywords': dict(result='int', outargs='borrowed-from-args'),
     'PyArg_ParseTuple': dict(result='int', outargs='borrowed-from-args'),
     'PyLong_FromLong': dict(result='new', nullable=True),
+    'PyUnicode_FromString': dict(result='new', nullable=True),
     'PyLong_AsLong': dict(result='int', nonnull=[0]),
     'PyTuple_Pack': dict(result='new', nullable=True),
     'PyTuple_GetSlice': dict(result='new', nullable=True, nonnull=[0]),
